@@ -389,10 +389,10 @@ func parseHdrFields(fs []string) http.Header {
 		if len(kv) != 2 {
 			continue
 		}
+		// a repeated name is a header sent on several lines: all values are kept, in order (the code reads the
+		// first one, Header.Get; the model looks the name up in the same list)
 		k := unhx(kv[0])
-		if _, ok := h[k]; !ok { // first value is what Header.Get sees
-			h[k] = []string{unhx(kv[1])}
-		}
+		h[k] = append(h[k], unhx(kv[1]))
 	}
 	return h
 }
